@@ -263,6 +263,9 @@ type ReplayFile struct {
 	// Regenerate: the streams are not recorded (the process died before they
 	// could be); the tape is regenerated from RunSeed, which determines it.
 	Regenerate bool `json:"regenerate,omitempty"`
+	// RaceBuild: the violation was found by a worker built with the race
+	// detector (parallel-window phases); replay uses the same kind of build.
+	RaceBuild bool `json:"race_build,omitempty"`
 	Attempts   int  `json:"minimise_attempts"`
 	DrawsTotal int  `json:"draws_total"`
 }
